@@ -229,6 +229,8 @@ struct Exec {
     delivered_at: HashMap<(usize, TransactionID), u64>,
     /// (daemon, transaction) -> conditions its user has been told so far (Finished / Fault / Abandon)
     told: HashMap<(usize, TransactionID), Vec<Condition>>,
+    /// (daemon, transaction) whose user has been told a complete, error-free delivery
+    success_told: std::collections::HashSet<(usize, TransactionID)>,
     /// an entity gave up on one of its limits while some transaction was suspended by its user
     /// (for that entity the suspension was a delay longer than its timers: C02's premise is gone)
     gave_up_during_suspension: bool,
@@ -327,6 +329,7 @@ impl Exec {
             delivered_at: HashMap::new(),
             told: HashMap::new(),
             gave_up_during_suspension: false,
+            success_told: Default::default(),
             scn,
         }
     }
@@ -348,7 +351,25 @@ impl Exec {
     }
 
     /// replay what the real loops did on the twins and compare
+    /// replay what the real loops did on the twins and compare; if that fails half-way, what the
+    /// users were told is still examined by the direct oracles
     async fn sync(&mut self) -> Result<(), String> {
+        let r = self.sync_inner().await;
+        if r.is_err() {
+            let mut notes: Vec<(usize, Indication)> = vec![];
+            for (di, dh) in self.d.iter_mut().enumerate() {
+                while let Ok(i) = dh.ind_rx.try_recv() {
+                    notes.push((di, i));
+                }
+            }
+            for (di, i) in notes {
+                self.note_indication(di, &i);
+            }
+        }
+        r
+    }
+
+    async fn sync_inner(&mut self) -> Result<(), String> {
         self.quiesce().await;
         let events: Vec<(TransactionID, &'static str, LoopStep)> = self.trace.borrow_mut().drain(..).collect();
         if events.len() >= 50_000 {
@@ -528,19 +549,11 @@ impl Exec {
         // receiver had ended) raises indications of its own: for such ids the twin's indications
         // must be contained in the real ones, for all others the multisets must be equal.
         let mut real_inds: Vec<(bool, String)> = vec![];
+        let mut notes: Vec<(usize, Indication)> = vec![];
         for (di, dh) in self.d.iter_mut().enumerate() {
             while let Ok(i) = dh.ind_rx.try_recv() {
                 let id = ind_id(&i);
-                match &i {
-                    Indication::Finished(f) => self.told.entry((di, id)).or_default().push(f.report.condition),
-                    Indication::Abandon(f) | Indication::Fault(f) => {
-                        self.told.entry((di, id)).or_default().push(f.condition);
-                        if !self.suspended.is_empty() && matches!(f.condition, Condition::InactivityDetected | Condition::PositiveLimitReached | Condition::NakLimitReached | Condition::CheckLimitReached) {
-                            self.gave_up_during_suspension = true;
-                        }
-                    }
-                    _ => {}
-                }
+                notes.push((di, i.clone()));
                 if let Some(t) = self.twins.iter().find(|t| t.id == id) {
                     let ghosted = di == t.spec.to && self.ghost.contains_key(&id);
                     if di == t.spec.from || di == t.spec.to {
@@ -548,6 +561,9 @@ impl Exec {
                     }
                 }
             }
+        }
+        for (di, i) in notes {
+            self.note_indication(di, &i);
         }
         let mut strict: Vec<String> = real_inds.iter().filter(|x| !x.0).map(|x| x.1.clone()).collect();
         let mut loose: Vec<String> = real_inds.iter().filter(|x| x.0).map(|x| x.1.clone()).collect();
@@ -739,6 +755,44 @@ impl Exec {
             }
         }
         v
+    }
+
+    /// direct (twin-independent) oracles on what a daemon tells its user
+    fn note_indication(&mut self, di: usize, i: &Indication) {
+        let id = ind_id(i);
+        // C04 at daemon level: once the receiving user has been told a complete delivery, the
+        // same receive task tells it nothing more about the file of that transaction (a receiver started
+        // afresh by a late duplicate is a different matter and speaks for itself)
+        if self.twins.iter().any(|t| t.id == id && t.spec.to == di) && !self.ghost.contains_key(&id) {
+            // (limit faults of the closing handshake may still follow a success: what must not
+            // follow is a second delivery or a verdict on the file's integrity)
+            let about_the_file = |c: &Condition| matches!(c, Condition::NoError | Condition::FileChecksumFailure | Condition::FilesizeError | Condition::FileStoreRejection);
+            let again = match i {
+                Indication::Finished(f) if about_the_file(&f.report.condition) => Some(format!("Finished({:?},{:?})", f.report.condition, f.delivery_code)),
+                Indication::Fault(f) if about_the_file(&f.condition) => Some(format!("Fault({:?})", f.condition)),
+                _ => None,
+            };
+            if let (Some(what), true) = (&again, self.success_told.contains(&(di, id))) {
+                if !self.violations.iter().any(|v| v.0 == "report-after-success") {
+                    self.violations.push(("report-after-success".into(), what.split('(').next().unwrap_or("").to_string(), format!("the receiving user of transaction {:?} had been told NoError/Complete and is now told {}", id, what)));
+                }
+            }
+            if let Indication::Finished(f) = i {
+                if f.report.condition == Condition::NoError && f.delivery_code == DeliveryCode::Complete {
+                    self.success_told.insert((di, id));
+                }
+            }
+        }
+        match i {
+            Indication::Finished(f) => self.told.entry((di, id)).or_default().push(f.report.condition),
+            Indication::Abandon(f) | Indication::Fault(f) => {
+                self.told.entry((di, id)).or_default().push(f.condition);
+                if !self.suspended.is_empty() && matches!(f.condition, Condition::InactivityDetected | Condition::PositiveLimitReached | Condition::NakLimitReached | Condition::CheckLimitReached) {
+                    self.gave_up_during_suspension = true;
+                }
+            }
+            _ => {}
+        }
     }
 
     /// direct (twin-independent) oracles on a PDU a daemon hands to its transport
